@@ -339,14 +339,38 @@ def materialise(desc) -> Structure:
         meta = dict(id=ch["id"], seq=list(seq), nums=list(nums), icodes=list(icodes),
                     oxt=ch.get("oxt", True), n=n, hyd=ch.get("hyd", "none"),
                     dropped=sorted(drop), index=ci)  # fmt: skip
+        altmod = ch.get("altmod", 0)
+        counter = 0
         for i, r in enumerate(res):
             names = [k for k in first if k in r["atoms"]] + [
                 k for k in r["atoms"] if k not in first
             ]
+            inv = {}
+            if altmod:
+                base_ = BASE.get(r["name"], r["name"])
+                sources = [RES[base_]["alts"]] if base_ in RES else []
+                if i == 0:
+                    sources.append(PATCH["NEUTRAL-NTERM" if base_ == "PRO" else "NTERM"]["alts"])
+                if i == n - 1:
+                    sources.append(PATCH["CTERM"]["alts"])
+                if r["name"] in ("ASH", "GLH"):
+                    sources.append(PATCH[r["name"]]["alts"])
+                for src in sources:
+                    for alt, canon in src.items():
+                        inv.setdefault(canon, []).append(alt)
+            used = set(names)
             for k in names:
                 if (i, k) in drop:
                     continue
-                s.add(name=k, resn=r["name"], chain=ch["id"], seq=nums[i], icode=icodes[i],
+                out_name = k
+                if altmod and k in inv:
+                    counter += 1
+                    if counter % altmod == 0:
+                        cand = [a for a in inv[k] if a not in used]
+                        if cand:
+                            out_name = cand[(counter // altmod) % len(cand)]
+                            used.add(out_name)
+                s.add(name=out_name, canon=k, resn=r["name"], chain=ch["id"], seq=nums[i], icode=icodes[i],
                       xyz=r["atoms"][k], group=("chain", ci, i))  # fmt: skip
         if ch.get("ter", True) and s.records:
             s.ters.add(len(s.records) - 1)
